@@ -27,7 +27,7 @@ fn check_record(r: &FlowSet, b: &[u8], o: usize) {
 
 /// B.v5.parse -- C03/C14 for counts 0..=2 and every buffer length 0..=N
 #[kani::proof]
-#[kani::unwind(6)]
+#[kani::unwind(5)]
 fn b_v5_parse() {
     let buf: [u8; N] = kani::any();
     let n: usize = kani::any();
